@@ -3,45 +3,49 @@ package props
 import (
 	"fmt"
 	"os"
+	"path/filepath"
 	"strconv"
 	"strings"
 	"testing"
 
-	"github.com/deepteams/webp/verifharness/ref/cref"
-	"github.com/deepteams/webp/verifharness/ref/xref"
+	"github.com/deepteams/webp/verifharness/gen"
+	"github.com/deepteams/webp/verifharness/ref/vp8lstrict"
 )
 
-func readFuzzFile(p string) []byte {
-	b, _ := os.ReadFile(p)
-	s := string(b)
-	i := strings.Index(s, "[]byte(")
-	u, err := strconv.Unquote(s[i+7 : strings.LastIndex(s, ")")])
-	if err != nil {
-		panic(err)
-	}
-	return []byte(u)
-}
-
-func TestDbgFuzz(t *testing.T) {
-	data := readFuzzFile(os.Getenv("FZ"))
-	bits := uint32(data[1]) | uint32(data[2])<<8 | uint32(data[3])<<16 | uint32(data[4])<<24
-	w, h := int(bits&0x3fff)+1, int(bits>>14&0x3fff)+1
-	fmt.Println("len", len(data), "w,h", w, h, "alpha", bits>>28&1, "ver", bits>>29)
-	p2, _, _, err := xref.DecodeVP8L(data)
-	p1, _, _, ok := cref.DecodeRGBA(data)
-	img, rerr := decodeBytes(xref.Simple("VP8L", data))
-	fmt.Println("ximage", err, "libwebp", ok, "repo", rerr)
-	if rerr == nil {
-		r := toNRGBA(img)
-		n := 0
-		for i := range r {
-			if r[i].R != p1[i*4] || r[i].G != p1[i*4+1] || r[i].B != p1[i*4+2] || r[i].A != p1[i*4+3] {
-				if n < 5 {
-					fmt.Println("px", i, "repo", r[i], "lib", p1[i*4:i*4+4], "x", p2[i*4:i*4+4])
-				}
-				n++
+func TestDbgCorpus(t *testing.T) {
+	files, _ := filepath.Glob(os.Getenv("FZ") + "/*")
+	ok, truth := 0, 0
+	reasons := map[string]int{}
+	for _, f := range files {
+		b, _ := os.ReadFile(f)
+		s := string(b)
+		i := strings.Index(s, "[]byte(")
+		if i < 0 {
+			continue
+		}
+		u, err := strconv.Unquote(s[i+7 : strings.LastIndex(s, ")")])
+		if err != nil {
+			continue
+		}
+		data := []byte(u)
+		if err := vp8lstrict.Validate(data, gen.DistMapXY(), 1<<14); err != nil {
+			reasons[err.Error()]++
+			continue
+		}
+		ok++
+		if len(data) >= 5 {
+			bits := uint32(data[1]) | uint32(data[2])<<8 | uint32(data[3])<<16 | uint32(data[4])<<24
+			w, h := int(bits&0x3fff)+1, int(bits>>14&0x3fff)+1
+			d := diffStill(&stillParts{File: nil, Bitstream: data, Lossless: true, W: w, H: h, RawToWitness: true})
+			if d.Truth {
+				truth++
+			} else {
+				reasons["valid but: "+d.WitnessNote]++
 			}
 		}
-		fmt.Println("diffs", n, "of", len(r))
+	}
+	fmt.Println("files", len(files), "strictly valid", ok, "truth established", truth)
+	for k, v := range reasons {
+		fmt.Println(" ", v, k)
 	}
 }
